@@ -1,6 +1,7 @@
 package worlds
 
 import (
+	"os"
 	"bytes"
 	"compress/gzip"
 	"fmt"
@@ -38,6 +39,7 @@ type c01Ex struct {
 	gzipOK   bool      // origin compresses when asked with Accept-Encoding: gzip
 	sentResp *RespSpec // what the origin actually sent (after the gzip decision)
 	conn     int
+	early, earlyFired bool // the origin answers after the head and reads no further
 }
 
 func c01Gzip(b []byte) []byte {
@@ -241,7 +243,19 @@ func runC01(k *kernel.K) {
 	}
 	var origins []*Origin
 	for _, h := range hosts {
-		origins = append(origins, NewOrigin(k, n, addrs[h], plan))
+		o := NewOrigin(k, n, addrs[h], plan)
+		// An origin that has made up its mind after the head (a 403, a 413, or simply an eager
+		// server): it answers at once and takes no more of the request body off the wire.
+		o.Early = func(oc *OConn, head *wire.Msg) *Reply {
+			ex := exs[exchangeID(head.Target)]
+			if ex == nil || !ex.early {
+				return nil
+			}
+			ex.earlyFired = true
+			k.Probe("origin_answers_before_reading_the_body")
+			return plan(oc, head)
+		}
+		origins = append(origins, o)
 	}
 
 	nconn := w.Range(1, 3)
@@ -273,6 +287,15 @@ func runC01(k *kernel.K) {
 			}
 			r.Pipelined = j > 0 && w.Chance(1, 3)
 			ex := &c01Ex{id: id, req: r, resp: rs, conn: ci, gzipOK: w.Chance(1, 4)}
+			ex.early = !big && !last && len(r.Body) >= 20000 && w.Chance(1, 2)
+			if ex.early {
+				// (small socket buffers towards the origins: most of the body is still on its way
+				// through the proxy when the origin answers)
+				for _, o := range origins {
+					o.AcceptCap = 4096
+				}
+				c.C.SetCap(4096) // (and on the client's side too)
+			}
 			exs[id] = ex
 			it := c.Add(r)
 			if r.Pipelined && w.Chance(1, 3) && len(it.Raw) > 2 {
@@ -281,6 +304,37 @@ func runC01(k *kernel.K) {
 			k.Note("c%d #%d %s %s %s body=%s/%d pipelined=%v close=%v -> %d %s/%d proto=%s close=%v gzipIfAsked=%v", ci, id, r.Method, r.Target(), r.Proto, r.Framing, len(r.Body), r.Pipelined, r.Close, rs.Status, rs.Framing, len(rs.Body), rs.Proto, rs.Close, ex.gzipOK)
 			id++
 		}
+	}
+	// A client cannot know that the origin will ask to close after its last exchange: it may have
+	// pipelined more behind it - a few bytes or a megabyte. None of that is served (the connection
+	// closes), but the last response must reach the client whole all the same, on a network that
+	// resets a connection closed with unread input too.
+	tails := map[int][]byte{}
+	tailSent := map[int]bool{}
+	for ci, c := range clients {
+		lastEx := exs[c.Script[len(c.Script)-1].Spec.ID]
+		if respAsksClose(lastEx.resp, lastEx.req.Method) && !reqAsksClose(lastEx.req) && w.Chance(1, 3) {
+			size := []int{50, 5000, 70000, 300000, 1 << 20}[w.Pick([]int{2, 2, 2, 2, 1})]
+			tails[ci] = append([]byte(fmt.Sprintf("POST http://origin-a.test/x900%d/tail HTTP/1.1\r\nHost: origin-a.test\r\nContent-Length: %d\r\n\r\n", ci, size)), bodyBytes(900+ci, 't', size)...)
+		}
+	}
+	if len(tails) > 0 {
+		k.AddSource(func(add func(kernel.Action)) {
+			if k.Draining {
+				return
+			}
+			for ci, c := range clients {
+				ci, c := ci, c
+				if tails[ci] == nil || tailSent[ci] || !c.Alive() || c.NextIndex() < len(c.Script) {
+					continue
+				}
+				add(kernel.Action{Key: fmt.Sprintf("%s pipelines a tail", c.Name), W: 3, Class: kernel.Actor, Do: func() {
+					tailSent[ci] = true
+					k.Probe(fmt.Sprintf("pipelined_tail_behind_closing_response_%dB", len(tails[ci])))
+					c.C.Inject(tails[ci])
+				}})
+			}
+		})
 	}
 	k.StateFn = func() string {
 		var sb strings.Builder
@@ -393,14 +447,45 @@ func runC01(k *kernel.K) {
 			}
 		})
 	}
-	k.RunUntil(func() bool {
+	allDone := func() bool {
 		for _, c := range clients {
 			if !c.Done() {
 				return false
 			}
 		}
 		return true
-	})
+	}
+	k.RunUntil(allDone)
+	// After an early answer net/http's transport waits up to 50 ms for the request write to end
+	// before it decides about the connection (and before it lets the reader of the response body see
+	// its end): when nothing else can happen, some time has to pass.
+	// The origin that answered early reads on only when everything else has come to rest.
+	for tries := 0; tries < 12 && k.Inconclusive == ""; tries++ {
+		fired := false
+		for _, ex := range exs {
+			fired = fired || ex.earlyFired
+		}
+		if !fired {
+			break
+		}
+		resumed := false
+		if tries%2 == 1 {
+			for _, o := range origins {
+				resumed = o.ResumeEarly() || resumed
+			}
+		}
+		if allDone() && !resumed {
+			break
+		}
+		// (a short step: what the proxy does when the wait ends reaches the clients right after it,
+		// so that their view of when the connection became idle stays within the idle gaps' margin)
+		k.Advance(60 * time.Millisecond)
+		k.RunUntil(allDone)
+	}
+	if !allDone() && os.Getenv("VERIF_DEBUG_CENSUS") != "" {
+		k.Note("CENSUS net/http: %s", kernel.FormatSummary(kernel.CensusSummary(k.Census(), "net/http.")))
+		k.Note("CENSUS martian: %s", kernel.FormatSummary(kernel.CensusSummary(k.Census(), "martian/v3.")))
+	}
 	k.Drain()
 	if k.Inconclusive != "" {
 		n.Shutdown()
@@ -432,7 +517,7 @@ func runC01(k *kernel.K) {
 				k.Fail("C01.req_once", nil, "request #%d (%s %s) reached the origin %d times", r.ID, r.Method, r.Target(), len(oms))
 			}
 			if len(oms) >= 1 {
-				c01CheckRequest(k, r, oms[0])
+				c01CheckRequest(k, r, oms[0], ex.earlyFired)
 			}
 			if j >= len(fin) {
 				pd := ""
@@ -495,7 +580,9 @@ func runC01(k *kernel.K) {
 	k.Settle()
 }
 
-func c01CheckRequest(k *kernel.K, r *ReqSpec, m *wire.Msg) {
+// c01CheckRequest: early is set when the origin answered after the head and stopped reading - what
+// it has of the body is then a prefix at best.
+func c01CheckRequest(k *kernel.K, r *ReqSpec, m *wire.Msg, early bool) {
 	form := "origin"
 	if r.Abs {
 		form = "absolute"
@@ -522,6 +609,12 @@ func c01CheckRequest(k *kernel.K, r *ReqSpec, m *wire.Msg) {
 			}
 			k.Fail("C01.req_headers", map[string]string{"name": name, "detail": detail}, "request #%d: header %s sent as %q, origin received %q", r.ID, name, sent[name], recv[name])
 		}
+	}
+	if early && !m.Complete {
+		if !bytes.HasPrefix(r.Body, m.Body) {
+			k.Fail("C01.req_body", map[string]string{"framing": r.Framing, "len_class": lenClass(len(r.Body))}, "request #%d: what the origin had received of the body when it stopped reading (%d bytes) is not a prefix of what the client sent", r.ID, len(m.Body))
+		}
+		return
 	}
 	if !m.Complete {
 		k.Fail("C01.req_body", map[string]string{"framing": r.Framing, "len_class": lenClass(len(r.Body))}, "request #%d: origin received an incomplete request body (%d of %d bytes)", r.ID, len(m.Body), len(r.Body))
